@@ -280,3 +280,51 @@ pub fn ref_tcp_serve_once(cred: &Cred, listener: &TcpListener, want_payload: usi
     }
     Err(format!("the reference server cannot decode what the client sent ({} bytes): {}", wire.len(), last_err))
 }
+
+// ---------------------------------------------------------------------------------------------- raw QUIC peer
+
+/// Presents `wire` on one bidirectional stream of a fresh QUIC connection to the server's QUIC listener (the way the
+/// real client opens its tunnel: ALPN http/1.1, the fixture certificate as the only root, server name localhost), keeps
+/// the stream open for `hold`, and returns what came back meanwhile.
+pub fn quic_present(server_port: u16, wire: &[u8], hold: Duration) -> Result<Vec<u8>, String> {
+    use quinn::rustls;
+    use std::sync::Arc;
+    let _ = rustls::crypto::aws_lc_rs::default_provider().install_default();
+    let pem = std::fs::read(crate::sys::fixture("cert.pem")).map_err(|e| format!("harness: fixture certificate: {}", e))?;
+    let der = pem_to_der(&pem).ok_or("harness: fixture certificate is not PEM")?;
+    let mut roots = rustls::RootCertStore::empty();
+    roots.add(rustls::pki_types::CertificateDer::from(der)).map_err(|e| format!("harness: root store: {}", e))?;
+    let mut tls = rustls::ClientConfig::builder().with_root_certificates(roots).with_no_client_auth();
+    tls.alpn_protocols = vec![b"http/1.1".to_vec()];
+    let qcc = quinn::crypto::rustls::QuicClientConfig::try_from(tls).map_err(|e| format!("harness: quic config: {}", e))?;
+    let rt = tokio::runtime::Builder::new_current_thread().enable_all().build().map_err(|e| e.to_string())?;
+    let wire = wire.to_vec();
+    rt.block_on(async move {
+        let mut ep = quinn::Endpoint::client(SocketAddr::V4(SocketAddrV4::new(Ipv4Addr::LOCALHOST, 0))).map_err(|e| format!("quic endpoint: {}", e))?;
+        ep.set_default_client_config(quinn::ClientConfig::new(Arc::new(qcc)));
+        let conn = tokio::time::timeout(Duration::from_secs(8), async { ep.connect(SocketAddr::V4(SocketAddrV4::new(Ipv4Addr::LOCALHOST, server_port)), "localhost").map_err(|e| e.to_string())?.await.map_err(|e| e.to_string()) })
+            .await
+            .map_err(|_| "quic connect timed out".to_string())?
+            .map_err(|e| format!("quic connect: {}", e))?;
+        let (mut send, mut recv) = conn.open_bi().await.map_err(|e| format!("open_bi: {}", e))?;
+        send.write_all(&wire).await.map_err(|e| format!("quic write: {}", e))?;
+        let mut got = vec![];
+        let _ = tokio::time::timeout(hold, async {
+            let mut buf = [0u8; 4096];
+            while let Ok(Some(n)) = recv.read(&mut buf).await {
+                got.extend_from_slice(&buf[..n]);
+            }
+        })
+        .await;
+        conn.close(0u32.into(), b"done");
+        ep.wait_idle().await;
+        Ok(got)
+    })
+}
+
+fn pem_to_der(pem: &[u8]) -> Option<Vec<u8>> {
+    use base64ct::{Base64, Encoding};
+    let t = std::str::from_utf8(pem).ok()?;
+    let body: String = t.lines().skip_while(|l| !l.starts_with("-----BEGIN")).skip(1).take_while(|l| !l.starts_with("-----END")).collect();
+    Base64::decode_vec(&body).ok()
+}
